@@ -280,15 +280,16 @@ def formula_text(tree):
 def snapshot_formula(f):
     """Structure of a formula object taken by walking, not by str()."""
     cls = type(f).__module__ + '.' + type(f).__name__
+    # the tree only (classes, atom names, constants, child order): derived
+    # attributes such as `height` are the library's own business
     if hasattr(f, '_value') and not hasattr(f, '_subformula'):
-        return [cls, 'bool', f._value, getattr(f, 'height', None)]
+        return [cls, 'bool', f._value]
     if hasattr(f, 'name') and not hasattr(f, '_subformula'):
-        return [cls, 'ap', f.name, getattr(f, 'height', None)]
+        return [cls, 'ap', f.name]
     subs = getattr(f, '_subformula', None)
     if subs is None:
         return [cls, 'opaque', repr(f)]
-    return [cls, 'op', getattr(f, 'height', None),
-            [snapshot_formula(s) for s in subs]]
+    return [cls, 'op', [snapshot_formula(s) for s in subs]]
 
 
 def formula_atoms(tree, acc=None):
